@@ -97,3 +97,10 @@ package object
 //@   ensures [ok-iff-wellformed] r1 == nil <==> isext(extendedSpatialID)
 //@   ensures [fields] r1 == nil ==> r0 != nil && r0.hZoom == val(fld(extendedSpatialID, 0)) && r0.x == val(fld(extendedSpatialID, 1)) && r0.y == val(fld(extendedSpatialID, 2)) && r0.vZoom == val(fld(extendedSpatialID, 3)) && r0.z == val(fld(extendedSpatialID, 4))
 //@ end
+
+//@ -- the canonical text of an ID object
+//@ func ExtendedSpatialID.ID
+//@   props C04 C10
+//@   pure
+//@   ensures r0 == ext(s.hZoom, s.x, s.y, s.vZoom, s.z)
+//@ end
